@@ -113,6 +113,10 @@ class ifthenelse(Command):
                         break
                     postfix.append(stack.pop())
                 stack.pop()  # (
+            elif isinstance(tok, (_not, NOT)):
+                # A prefix operator has no left operand, so nothing that is
+                # already on the stack can be complete yet
+                stack.append(tok)
             else:
                 # Handle operators and precedence
                 while stack and self.prec(tok) <= self.prec(stack[-1]):
